@@ -261,17 +261,25 @@ Definition assign_value (sc : pscope) (e : env) (ts : list target) (r : rhs) : o
       else Some (VData None)             (* any other call yields a plain data value (assumption of the subset) *)
   end.
 
-Definition bind_target (v : pyval) (t : target) (e : env) : option env :=
+Definition literal_bound (n : name) (e : env) : bool :=
+  match plookup n e with Some (VData (Some _)) => true | _ => false end.
+
+(* strict: unpacking into a name that currently holds the value of a literal is outside the strict subset
+   (pydoctor keeps the type inferred from that literal, see C03_infer_stale_after_unpacking_refuted) *)
+Definition bind_unpacked (strict : bool) (n : name) (e : env) : option env :=
+  if strict && literal_bound n e then None else bind_data n (VData None) e.
+
+Definition bind_target (strict : bool) (v : pyval) (t : target) (e : env) : option env :=
   match t with
   | TName n => match v with
                | VFun _ _ _ => Some (bind n v e)        (* only produced by the old-style wrapping of n itself *)
                | _ => bind_data n v e
                end
-  | TTuple ns => ofold (fun n e => bind_data n (VData None) e) ns e
+  | TTuple ns => ofold (bind_unpacked strict) ns e
   | TSelf _ => None                                     (* NameError: self is not defined in a module/class body *)
   end.
 
-Fixpoint py_stmt (x : stmt) (sc : pscope) (e : env) {struct x} : option env :=
+Fixpoint py_stmt (strict : bool) (x : stmt) (sc : pscope) (e : env) {struct x} : option env :=
   match x with
   | Def nm decos asy body =>
       match def_wrap sc decos WNone with
@@ -279,18 +287,18 @@ Fixpoint py_stmt (x : stmt) (sc : pscope) (e : env) {struct x} : option env :=
       | None => None
       end
   | Class nm bases body =>
-      match bases_exc e bases, ofold (fun y e' => py_stmt y PClass e') body [] with
+      match bases_exc e bases, ofold (fun y e' => py_stmt strict y PClass e') body [] with
       | Some exc, Some ns => Some (bind nm (VClass exc (docstring_of body) ns) e)
       | _, _ => None
       end
   | Assign ts r =>
       match assign_value sc e ts r with
-      | Some v => ofold (bind_target v) ts e
+      | Some v => ofold (bind_target strict v) ts e
       | None => None
       end
   | AnnAssign (TName n) _ (Some r) =>
       match assign_value sc e [TName n] r with
-      | Some v => bind_target v (TName n) e
+      | Some v => bind_target strict v (TName n) e
       | None => None
       end
   | AnnAssign _ _ _ => None
@@ -304,27 +312,31 @@ Fixpoint py_stmt (x : stmt) (sc : pscope) (e : env) {struct x} : option env :=
   | ExprStr _ => Some e
   | Other => Some e
   | If TMain _ orelse => if nonbinding_suite orelse then Some e else None          (* body not executed on import *)
-  | If TTrue body orelse => if nonbinding_suite orelse then ofold (fun y e' => py_stmt y sc e') body e else None
+  | If TTrue body orelse => if nonbinding_suite orelse then ofold (fun y e' => py_stmt strict y sc e') body e else None
   | If TFalse body orelse => if nonbinding_suite body && nonbinding_suite orelse then Some e else None
   | Try body h o f =>
       if nonbinding_suite h && nonbinding_suite o && nonbinding_suite f
-      then ofold (fun y e' => py_stmt y sc e') body e else None
-  | With body => ofold (fun y e' => py_stmt y sc e') body e
+      then ofold (fun y e' => py_stmt strict y sc e') body e else None
+  | With body => ofold (fun y e' => py_stmt strict y sc e') body e
   | For tgt body orelse =>
       if nonbinding_suite orelse then
         match bind_aux tgt e with
-        | Some e1 => ofold (fun y e' => py_stmt y sc e') body e1
+        | Some e1 => ofold (fun y e' => py_stmt strict y sc e') body e1
         | None => None
         end
       else None
-  | While body orelse => if nonbinding_suite orelse then ofold (fun y e' => py_stmt y sc e') body e else None
+  | While body orelse => if nonbinding_suite orelse then ofold (fun y e' => py_stmt strict y sc e') body e else None
   | Import ns => ofold bind_aux ns e
   end.
 
-Definition py_body (sc : pscope) (body : list stmt) (e : env) : option env :=
-  ofold (fun y e' => py_stmt y sc e') body e.
+Definition py_body (strict : bool) (sc : pscope) (body : list stmt) (e : env) : option env :=
+  ofold (fun y e' => py_stmt strict y sc e') body e.
 
-Definition py_exec (prog : list stmt) : option env := py_body PModule prog [].
+(* py_exec: the agreed subset.  py_exec_strict: the same semantics, minus programs that unpack a tuple into a
+   name holding a literal value (the exact trigger of known finding C03-type-after-tuple-unpacking); used by
+   C03_infer_type_program_partial only.  py_exec_strict p = Some e  implies  py_exec p = Some e. *)
+Definition py_exec (prog : list stmt) : option env := py_body false PModule prog [].
+Definition py_exec_strict (prog : list stmt) : option env := py_body true PModule prog [].
 
 (* ---- the type of a literal value ---------------------------------------------------------------------- *)
 Definition py_type_name (v : value) : text :=
